@@ -2,6 +2,7 @@
 mod util;
 mod c18;
 mod c13;
+mod c19;
 
 fn main() {
     util::quiet_panics();
@@ -12,6 +13,8 @@ fn main() {
         ["c18", "record", runs, max_n, path] => c18::record(runs.parse().unwrap(), max_n.parse().unwrap(), path),
         ["c13", "replay", path] => c13::replay(path),
         ["c13", "record", runs, ops, path] => c13::record(runs.parse().unwrap(), ops.parse().unwrap(), path),
+        ["c19", "replay", path] => c19::replay(path),
+        ["c19", "record", runs, path] => c19::record(runs.parse().unwrap(), path),
         _ => {
             eprintln!("usage: vh <prop> <replay|record> ...");
             std::process::exit(2);
